@@ -1,5 +1,5 @@
 (* Correspondence for C05: the implementation's ProblemParser (canonical dump of the parsed Problem, or raised)
-   versus the model (Model/Problem.v, configuration cfg_fixed) and the spec (Spec/Problem.v).
+   versus the model (Model/Problem.v, configuration Model.Problem.cfg_current = the tree as it is) and the spec (Spec/Problem.v).
    A world is the vocabulary of one parsed domain (dumped from the implementation's Domain object) with the
    problem texts parsed against it. *)
 From Coq Require Import List Ascii String Bool Arith PrimFloat.
@@ -25,7 +25,7 @@ Definition case_sexp (c : pcase) : result sexp := parse MFile (unesc (c_text c))
 (* ----- model ----- *)
 Definition model_obs (v : vocab) (c : pcase) : obs pdump :=
   obs_of_result (do e <- case_sexp c;
-                 do pb <- parse_problem cfg_fixed (numtab c) (mdomain_of v) e;
+                 do pb <- parse_problem cfg_current (numtab c) (mdomain_of v) e;
                  Ok (dump_problem pb)).
 
 (* agreement: everything pdump_equiv compares, and the fluent table entry by entry in dict order *)
